@@ -163,9 +163,63 @@ def judge_a(ctx, comp, par, versions, pins, reverse_order, case, second=None, n_
         ctx.violation("report-raises", {"type": type(err).__name__, "msg": str(err)[:200]}, case)
         return
     judge_component(ctx, data, 'comp', comp, par, versions, pins, case)
+    if not ctx.mech_counts and sum(map(ord, str(sorted(pins.items())))) % 3 == 0:
+        judge_printed(ctx, repos, data, case)
     if second:
         ctx.count("two_component_scenarios")
         judge_component(ctx, data, 'comp2', second[0], par, second[1], second[2], case)
+
+
+PRINTED_BUILD_RE = re.compile(r"^  (\S.*?) \((\d{4}-\d\d-\d\d \d\d:\d\d:\d\d)\)(?: / (\S+) (\S+) (.+))?$")
+PRINTED_MORE_RE = re.compile(r"^ {3,}/ (\S+) (\S+) (.+)$")
+
+
+def judge_printed(ctx, repos, data, case):
+    """what the user reads: the printed report must show, for every component build, exactly the parent builds
+    recorded in the report data"""
+    try:
+        text = str(repos.make_report(TEXT).ch_text(no_color=True))
+    except Exception as err:
+        ctx.violation("report-raises", {"type": type(err).__name__, "msg": str(err)[:200], "printed": True}, case)
+        return
+    shown = {}
+    repo = branch = None
+    last = None
+    for line in text.split("\n"):
+        m = re.match(r"^==== repo (\S+) ====$", line)
+        if m:
+            repo, branch, last = m.group(1), None, None
+            continue
+        if repo and line.startswith(repo + " ") and line.endswith(":"):
+            branch, last = line[len(repo) + 1:-1], None
+            continue
+        m = PRINTED_BUILD_RE.match(line)
+        if m and branch is not None:
+            last = shown.setdefault((repo, branch), [])
+            last.append([m.group(1), []])
+            if m.group(3):
+                last[-1][1].append((m.group(3), m.group(4), m.group(5)))
+            continue
+        m = PRINTED_MORE_RE.match(line)
+        if m and last:
+            last[-1][1].append((m.group(1), m.group(2), m.group(3)))
+    ctx.count("printed_reports_compared_with_data")
+    for rid, rgraph in data.items():
+        for br in rgraph.branches:
+            want = []
+            for rb in br.get_rbuilds_list():
+                if rb.rcommit is None:
+                    continue      # (fake 'not merged' builds have no time stamp and no parents)
+                name = "- not built -" if rb.build_num.is_fake_not_built() else str(rb.build_num)
+                incl = [(str(a), str(b), "- not built -" if c.is_fake_not_built() else str(c))
+                        for a, b, c in rb.included_at]
+                want.append([name, incl])
+            got = shown.get((rid, br.branch_name), [])
+            if got != want:
+                ctx.violation("printed-report-differs-from-report-data",
+                              {"repo": rid, "branch": br.branch_name, "printed": got[:4], "data": want[:4]}, case)
+                return
+            ctx.count("printed_included_at_entries", sum(len(x[1]) for x in want))
 
 
 def judge_component(ctx, data, cname, comp, par, versions, pins, case):
